@@ -51,6 +51,24 @@ def run(rep, work, rng, tier):
         cid = 'f%d' % i
         cases.append((cid, ['loadx 0 ' + name, 'snap 0', 'save 0 %s_g2.c3d' % cid, 'fsum %s_g2.c3d' % cid, 'load 1 %s_g2.c3d' % cid, 'snap 1',
                             'save 1 %s_g3.c3d' % cid, 'fsum %s_g3.c3d' % cid, 'load 2 %s_g3.c3d' % cid, 'save 2 %s_g4.c3d' % cid, 'fsum %s_g4.c3d' % cid]))
+    # the REWRITTEN parameter section ends on every residue modulo 512 once (three descriptions whose lengths add up to t): the
+    # section must stay terminated when its records end exactly on a block boundary; the data start with a byte that is not 0
+    main_ids = set(cid for cid, _ in cases)
+    for t in range(512):
+        a = min(t, 255); b = min(t - a, 255); c3 = t - a - b
+        cc = filegen.make_content(rng, dict(npoints=1, nchan=0, nframes=1, dense_ids=True, order='canonical', nlabels=1, first=1, big_record=False, empty_analog=False))
+        recs = []
+        for r in cc['records']:
+            if r[0] == 'G' and r[2] == b'POINT': r = r[:3] + (b'a' * a,) + r[4:]
+            elif r[0] == 'P' and r[2] == b'USED' and r[5] == 'I' and r[1] == [x for x in cc['records'] if x[0] == 'G' and x[2] == b'POINT'][0][1]: r = r[:3] + (b'b' * b,) + r[4:]
+            elif r[0] == 'P' and r[2] == b'RATE' and r[1] == [x for x in cc['records'] if x[0] == 'G' and x[2] == b'POINT'][0][1]: r = r[:3] + (b'c' * c3,) + r[4:]
+            elif r[0] == 'G' or (r[0] == 'P' and r[3]): r = r[:3] + (b'',) + r[4:]        # every other description empty: one byte per step
+            recs.append(r)
+        cc['records'] = [r for r in recs if not (r[0] == 'G' and r[2].startswith(b'EXTRA')) and not (r[0] == 'P' and r[1] not in [x[1] for x in recs if x[0] == 'G' and x[2] in (b'POINT', b'ANALOG')])]
+        cc['frames'] = [([('3dcccccd', '40000000', '40400000', '3c23d70a')], [])]; cc['nev'] = 0; cc['evlab'] = [b''] * 18
+        name = 'al%d.c3d' % t; open(os.path.join(shared, name), 'wb').write(c3dspec.encode(dict(zeros=0, paddr=2, prologue_zeroed=False, end_by_zero_offset=False, strpad=b' ', extra_pad_blocks=0), cc))
+        cid = 'al%d' % t
+        cases.append((cid, ['loadx 0 ' + name, 'snap 0', 'save 0 %s_g2.c3d' % cid, 'fsum %s_g2.c3d' % cid, 'load 1 %s_g2.c3d' % cid, 'snap 1', 'save 1 %s_g3.c3d' % cid, 'fsum %s_g3.c3d' % cid]))
     nv = 0
     for p in (c02.VENDOR[2:3] if tier == 'quick' else c02.VENDOR[:3]):
         if os.path.exists(p):
@@ -63,7 +81,7 @@ def run(rep, work, rng, tier):
     (c, _), (m, _), nd = common.correspondence(rep, work, cases, select=sel, label='generations 2 and 3 (bytes) and reloaded object', shared=shared)
     bad = 0; compared = 0; comps = {}
     # C04_decided evaluated on the generation-1 object (loaded from any layout) and on the generation-2 object
-    appl = common.theorem_applicability(work, cases, shared=shared); th = dict(gen1_objects=0, gen1_hypotheses_hold=0, gen2_objects=0, gen2_hypotheses_hold=0, confirmed_by_the_implementation=0)
+    appl = common.theorem_applicability(work, [x for x in cases if not x[0].startswith('al')], shared=shared); th = dict(gen1_objects=0, gen1_hypotheses_hold=0, gen2_objects=0, gen2_hypotheses_hold=0, confirmed_by_the_implementation=0)
     for cid, lines in cases:
         cl, cs = c.get(cid, ([], 'missing'))
         ops = harness.split_ops(lines, cl)
